@@ -66,12 +66,12 @@ Fixpoint do_read_required (fuel : nat) (codec : Z) (pgn nread : Z) (acc : bytes)
     end
   else ret (acc, sizes).
 
-(** readLevels on data[l:], then levels[:NumValues] *)
+(** readLevels on data[l:], then pageLevels(levels, NumValues) *)
 Definition read_levels (w : N) (data : bytes) (l : nat) (nv : Z) : result (list N * nat) :=
   if Nat.ltb (length data) l then Panic                 (* data[l:] out of range *)
   else match rle_read w (skipn l data) with
        | Ok (vals, n) =>
-           if (nv <? 0)%Z || Nat.ltb (length vals) (Z.to_nat nv) then Panic     (* levels[:NumValues] *)
+           if (nv <? 0)%Z || Nat.ltb (length vals) (Z.to_nat nv) then Err       (* pageLevels: fewer levels than num_values (an error since fix D16) *)
            else Ok (firstn (Z.to_nat nv) vals, n)
        | Err => Err
        | Panic => Panic
